@@ -168,6 +168,15 @@ def remove_all(ctx, rule="R-REMOVE-ALL"):
             elif src == F:
                 verdict = False
                 why = "removal happens while iterating the live list: every second adjacent match survives"
+            elif src[0] == "comp" and len(src[2]) == 1 and src[1][0] == "iter" and src[1][1] == src[2][0][0] and contains(src[2][0][0], F):
+                # two passes: the matching records are selected first (a comprehension over the registry or a copy of it - reading only),
+                # then removed one by one from the live list
+                went_on = any(rec.ev.kind == "for" and rec.ev.pol in ("exhaust", "iter") for rec in r.recs[i + 1:]) or r.term == "cut"
+                if not went_on and r.term in ("fall", "return"):
+                    verdict = False
+                    why = "the loop is left after the first registration it removed: further registrations of the same callback stay active"
+                    break
+                verdict = True if verdict is None else verdict
             elif src[0] in ("call", "sub") and contains(src, F):
                 # iteration over a copy (list(x), x[:], x.copy()) - and the loop goes on after a removal (no break / return)
                 went_on = any(rec.ev.kind == "for" and rec.ev.pol in ("exhaust", "iter") for rec in r.recs[i + 1:]) or r.term == "cut"
